@@ -83,9 +83,12 @@ macro_rules! rebind_if_ok {
         $pattern:tt $(:$ty:ty)? = $expression:expr
         $( => $($code:tt)* )?
     ) => {
-        if let $crate::__::v::Ok(tuple) = $expression {
-            $crate::__priv_ai_preprocess_pattern!{tuple, ($pattern $(:$ty)?)}
-            $($($code)*)?
+        match $expression {
+            $crate::__::v::Ok(tuple) => {
+                $crate::__priv_ai_preprocess_pattern!{tuple, ($pattern $(:$ty)?)}
+                $($($code)*)?
+            }
+            $crate::__::v::Err(_) => {}
         }
     };
 }
